@@ -97,6 +97,9 @@ def cases(tier, seed):
                     for name in _datasets(D, tier):
                         k += 1
                         out.append(dict(C=C, D=D, i=i, j=j, w=w, floor=floor, data=name, dask=(k % 5 == 0), seed=seed, tier=tier))
+    for N in (2**15, 2**15 + 1, 40001, 2**16 + 5):
+        for floor in ("default", "matrix"):
+            out.append(dict(long=N, C=2, D=2, i=1, j=2, w=[0.375, 0.625], floor=floor, seed=seed, tier=tier))
     for a, b in itertools.permutations([(1, 1), (2, 1), (1, 2), (2, 2), (3, 2)], 2):
         out.append(dict(refusal=[list(a), list(b)], seed=seed, tier=tier))
     return out
@@ -147,9 +150,57 @@ def _refusal(case):
     return c.result(nontrivial=True, sig="refusal%r" % (case["refusal"],))
 
 
+def _long(case):
+    """One long in-memory batch (lengths around 2^15 and 2^16, where an implementation may start to work in slabs): equals
+    multiplicity x per-row statistics from the Decimal oracle, and the sum of the statistics of its two parts for every cut."""
+    import dask.array as da
+    from decimal import Decimal as Dc
+
+    sync_dask()
+    c = Ctx()
+    m, mu, var, floor, s, o = c01.build(case)
+    C, D = case["C"], case["D"]
+    base = np.array(NAMED2["blobs"] + NAMED2["nondyadic"], dtype=float) * s + o
+    N = case["long"]
+    idx = (np.arange(N) * 7) % len(base)
+    X = base[idx]
+    vis, w = np.array(m.variances, float), np.array(m.weights, float)
+    mult = np.bincount(idx, minlength=len(base))
+    R = np.empty((C, len(base)))
+    totd = Dc(0)
+    for i in range(len(base)):
+        r, t = og.dec_resp(og.dec_lwl(base[i], w, mu, vis))
+        R[:, i] = [float(v) for v in r]
+        totd += t * int(mult[i])
+    Rm = R * mult
+    want = dict(t=N, n=Rm.sum(axis=1), px=Rm @ base, pxx=Rm @ (base * base), ll=float(totd))
+    tags = dict(floor=case["floor"], long=N)
+    scale = float(np.abs(base).max()) + 1.0
+
+    def same(got, what):
+        c.check(got["t"] == N, "long_batch", f"{what}: t={got['t']} want {N}", tags)
+        for k, sc in (("n", N), ("px", scale * N), ("pxx", scale * scale * N), ("ll", abs(want["ll"]) + N)):
+            c.close(got[k], want[k], "long_batch", f"{what}: {k}", tags, rtol=1e-10, scale=sc)
+
+    whole = m.acc_stats(X)
+    same(_fields(whole), f"acc_stats of a batch of {N} rows")
+    c.transitions += 1
+    for cut in (1, 2**15 - 1, 2**15, 2**15 + 1, N // 2, N - 1):
+        if 0 < cut < N:
+            same(_fields(m.acc_stats(X[:cut]) + m.acc_stats(X[cut:])), f"rows [:{cut}] + rows [{cut}:] of {N}")
+            c.transitions += 2
+    same(_fields(m.acc_stats(da.from_array(X, chunks=(2**15 + 3, D)))), f"dask batch of {N} rows in chunks of 2^15+3")
+    c.transitions += 1
+    c.states = 8
+    c.traces = c.transitions
+    return c.result(nontrivial=True, sig="long|%d|%s" % (N, case["floor"]))
+
+
 def run_case(case):
     if "refusal" in case:
         return _refusal(case)
+    if "long" in case:
+        return _long(case)
     sync_dask()
     c = Ctx()
     m, mu, var, floor, s, o = c01.build(case)
